@@ -5,7 +5,9 @@ mod alloc;
 mod codec;
 mod engine;
 mod gen;
+mod cont;
 mod p01;
+mod p02;
 mod refimpl;
 mod walk;
 
@@ -25,6 +27,7 @@ macro_rules! dispatch {
     ($id:expr, $f:ident, $($arg:expr),*) => {
         match $id {
             "C01" => $f::<p01::C01>($($arg),*),
+            "C02" => $f::<p02::C02>($($arg),*),
             other => {
                 eprintln!("unknown property {other}");
                 std::process::exit(2);
